@@ -107,7 +107,7 @@ def justified_skip(cube):
     return True
 
 
-def run(ctx):
+def run(ctx, deps=True):
     eng = ctx.eng
     ctx.assume("A1", "A2", "A3", "A5", "A6", "A8")
     m = VSModel(eng)
@@ -236,6 +236,14 @@ def run(ctx):
     from .signer import agreement
 
     agreement(ctx, "R4")
+
+    # ---- "... and everything built on it": the callers must hand the verifier exactly the keys and
+    # threshold of the rule they implement, else sufficient signers are turned away one level up
+    if deps:
+        from . import c03, c05
+
+        c03.run(ctx.sub("DEP-C03"), deps=False)
+        c05.run(ctx.sub("DEP-C05"), deps=False)
 
 
 def _from_serializer(x):
